@@ -192,6 +192,93 @@ pub fn run_line(line: &str, out: &mut String) {
                     stale += 1;
                 }
             }
+            "vecstream" | "vecstreamb" => {
+                // C06 with the vector on another thread: a writer mutates an ObservableVector of small
+                // capacity back to back while this thread polls the plain / batched subscriber stream,
+                // so a lag can be detected in the middle of a drain (the `Lagged` arms inside
+                // handle_lag and inside the batched drain loop).  Every delivered diff must be
+                // applicable, and once the writer is done the replica equals the contents at Pending.
+                use eyeball_im::{ObservableVector, VectorDiff};
+                use imbl::Vector;
+                let mut ov: ObservableVector<u32> = ObservableVector::with_capacity(1 + (d1 as usize % 4));
+                ov.append((0..3u32).collect());
+                let vsub = ov.subscribe();
+                let mut replica: Vector<u32> = vsub.values();
+                enum S {
+                    P(Pin<Box<dyn Stream<Item = VectorDiff<u32>>>>),
+                    B(Pin<Box<dyn Stream<Item = Vec<VectorDiff<u32>>>>>),
+                }
+                let mut st = if kind == "vecstream" { S::P(Box::pin(vsub.into_stream())) } else { S::B(Box::pin(vsub.into_batched_stream())) };
+                let b2 = barrier.clone();
+                let h = std::thread::spawn(move || {
+                    b2.wait(d2);
+                    for k in 0..200u32 {
+                        match k % 7 {
+                            0 | 1 | 2 => ov.push_back(100 + k),
+                            3 => {
+                                ov.pop_front();
+                            }
+                            4 => ov.push_front(100 + k),
+                            5 => {
+                                if ov.len() > 1 {
+                                    ov.remove(1);
+                                }
+                            }
+                            _ => {
+                                let mut t = ov.transaction();
+                                t.push_back(100 + k);
+                                t.push_back(300 + k);
+                                t.commit();
+                            }
+                        }
+                    }
+                    ov
+                });
+                barrier.wait(d1);
+                let mut bad = false;
+                let mut cx = Context::from_waker(&waker);
+                let mut step = |replica: &mut Vector<u32>, bad: &mut bool, cx: &mut Context<'_>| -> bool {
+                    let r: Poll<Option<Vec<VectorDiff<u32>>>> = match &mut st {
+                        S::P(s) => s.as_mut().poll_next(cx).map(|o| o.map(|d| vec![d])),
+                        S::B(s) => s.as_mut().poll_next(cx),
+                    };
+                    match r {
+                        Poll::Ready(Some(ds)) => {
+                            for d in ds {
+                                if !crate::m_adapt::ok_in(&d, replica.len()) {
+                                    *bad = true;
+                                }
+                                let mut v2 = replica.clone();
+                                match crate::common::catch(move || {
+                                    d.apply(&mut v2);
+                                    v2
+                                }) {
+                                    Some(v2) => *replica = v2,
+                                    None => *bad = true,
+                                }
+                            }
+                            true
+                        }
+                        Poll::Ready(None) => {
+                            *bad = true;
+                            false
+                        }
+                        Poll::Pending => false,
+                    }
+                };
+                while !h.is_finished() {
+                    step(&mut replica, &mut bad, &mut cx);
+                }
+                let ov = h.join().unwrap();
+                while step(&mut replica, &mut bad, &mut cx) {}
+                if !replica.iter().eq(ov.iter()) {
+                    stale += 1;
+                }
+                if bad {
+                    order += 1;
+                }
+                drop(ov);
+            }
             "drop2" => {
                 let ob2 = ob.clone();
                 let mut cx = Context::from_waker(&waker);
